@@ -31,7 +31,7 @@ def handleAsm (args : List String) : String :=
         let syms := r.symbols.map (fun (f, n, v) => s!"{fileIdx f}/{showCpsDot n}/{v}")
         let lay := r.layout.map (fun (a, s, l) => s!"{a}/{s}/{l}")
         let em := r.emitted.map (fun e => s!"{e.format}/{showCpsDot e.path}/{showNatDot e.tapeName}")
-        s!"{r.outcome} base={r.base} code={showNatList r.code} diags={if dsU.isEmpty then "-" else ";".intercalate dsU} syms={if syms.isEmpty then "-" else ";".intercalate syms} layout={if lay.isEmpty then "-" else ";".intercalate lay} emitted={if em.isEmpty then "-" else ";".intercalate em} note={r.note.replace " " "_"}"
+        s!"{r.outcome} base={r.base} code={showNatList r.code} diags={if dsU.isEmpty then "-" else ";".intercalate dsU} syms={if syms.isEmpty then "-" else ";".intercalate syms} layout={if lay.isEmpty then "-" else ";".intercalate lay} emitted={if em.isEmpty then "-" else ";".intercalate em} note={r.note.replace " " "_"} keys={if r.keys.isEmpty then "-" else ";".intercalate (r.keys.map showCpsDot)}"
     | _, _ => "bad-op"
   | _ => "bad-op"
 where
